@@ -847,9 +847,17 @@ func (r *c03Runner) cli(drift string) (ran bool) {
 		return true
 	}
 	body = body[:len(body)-1]
-	if m[1] == "<file>" {
+	if m[1] != "<file>" {
+		r.fail("cli", "cli-no-file-name "+drift, fmt.Sprintf("stderr %q", trunc(out, 300)))
+		return true
+	}
+	{
 		ln, _ := strconv.Atoi(m[2])
-		lines := bytes.Split(full, []byte{'\n'})
+		withNL := full
+		if !bytes.HasSuffix(withNL, []byte{'\n'}) {
+			withNL = append(append([]byte{}, full...), '\n') // the tool appends the missing final newline
+		}
+		lines := bytes.Split(withNL, []byte{'\n'})
 		if ln < 1 || ln > len(lines) {
 			r.fail("cli", "cli-line-number-outside-file "+drift, fmt.Sprintf("stderr %q", trunc(out, 300)))
 			return true
